@@ -148,7 +148,7 @@ theorem fam_no_match_noop (cfg : Cfg) (now : Int) (c c1 c' : Coll) (fs : Fields)
     unfold findAndModify at h
     split at h
     · split at h
-      · cases h
+      · exact h
       · split at h
         · cases h
         · exact h
